@@ -20,6 +20,8 @@ func propC03(r *Report, tier string) {
 	rulePrepareSegmentWaits(r, "K5-batch-waits")
 	ruleMarkBeforeCreate(r, "K5-mark-before-create")
 	ruleUnmarkAfterCommit(r, "K5-unmark-after-commit")
+	ruleEquivSnapshotOwnEpoch(r, "K6-persisted-snapshot-own-epoch")
+	ruleSegmentIDsNotReissued(r, "K5dep-segment-ids-from-disk")
 	ruleErrorsLookedAt(r, "Kerr-errors-looked-at", func(rel string) bool { return rel == "index/scorch" }, errAllowScorch)
 	ruleInMemoryMergeCoverage(r, "K14-memmerge-coverage")
 	ruleBoltKeyAgreement(r, "K11-bolt-keys")
